@@ -27,6 +27,8 @@ def c_stmt(st):
 
 
 def c_steps(raw_steps, parsed, sep="\n   "):
+    if not raw_steps:
+        return "(@nil step)"
     return clist([sep + clist(["(%s, %s)" % (cstr(r), c_stmt(p)) for r, p in zip(rs, ps)])
                   for rs, ps in zip(raw_steps, parsed)])
 
